@@ -16,8 +16,17 @@
     C08_identity_completion_partial (+ three witnesses that the full statement fails)
     C08_serial_world_not_completed                 witness for finding (ii)
     C08_order_independent_partial                  the finished access relation is a function of the SET of pairs
+    C08_access_fuel_suffices, C08_access_closure, C08_access_closure_finish, C08_access_serial_finish,
+    C08_eval_at_every_world_unconditional          the closure statement WITHOUT the computed flag (fuel always suffices)
+    C08_order_independent_access                   … and the access half of order independence without flags
+    C08_order_independent_assembly                 permuted successful programs assemble the same content (every logic)
+    C08_order_independent                          non-classical logics: permuted successful programs finish alike
+                                                   (same exception, or same content and same values)
+    C08_order_independent_classical_partial, C08_order_dependent_classical_witness
 -/
 import Ptx.Proofs.LibModelKeys
+import Ptx.Proofs.LibModelFuel
+import Ptx.Proofs.LibModelOrderEval
 import Ptx.Proofs.LibModelTest
 namespace Ptx.Props.C08
 open Ptx Ptx.LibModel
@@ -155,6 +164,21 @@ example :
     (finishX Test.tS4 {} m).2 = true ∧ (finishX Test.tS4 {} m).1.2 = none ∧ m.finished = false ∧
       (finishX Test.tS4 {} m).1.1.R.keys = [0, 1] := by decide +kernel
 
+/-- the same WITHOUT the computed flag (the fuel always suffices, `C08_access_fuel_suffices`): after a
+    successful `finish` of a modal model with the invariant, `value_of` is the documented semantics at
+    EVERY world of the finished access relation -/
+theorem C08_eval_at_every_world_unconditional (L : LogicData) (hOK : foldProgramsOKB L = true)
+    (hT : L.tablesTotalB = true) (hmod : L.modal = true) (h : Hints) (m m' : Model) (hinv : m.Inv L)
+    (hnf : m.finished = false) (hfin : finish L h m = (m', none)) (c0 : Dom m')
+    (s : Sent) (hs : okIn L m'.consts [] s = true) (w : Nat) (hw : w ∈ m'.R.keys) :
+    valueOf L m' s w = .ok (eval L (toStruct L m' c0) (envOf L m' c0) w s) :=
+  C08_eval_at_every_world L hOK hT hmod h m m' hinv hnf (finishX_flag hfin hnf hinv.rwf) c0 s hs w hw
+
+example :
+    let m := (run Test.tS4 {} Model.init [.setPred Test.F [Test.a] .T 0, .setPred Test.F [Test.b] .T 1, .rAdd 0 1]).1
+    (finish Test.tS4 {} m).2 = none ∧ m.finished = false ∧ (finish Test.tS4 {} m).1.R.keys = [0, 1] ∧
+      (finish Test.tS4 {} m).1.consts = [(0, 0), (1, 0)] := by decide +kernel
+
 /-- non-vacuity: a reachable finished model, a quantified modal sentence, all hypotheses true -/
 example :
     let L := Test.tS4
@@ -172,8 +196,9 @@ example :
     `break` (flag computed by the mirror, `true` in every correspondence case: driver answer
     `stable=true`) the finished relation HAS the property — so it is the least such relation.
 
-    Full statement (DESIGN): `(finish m).R = closureOf k m.worlds m.R` unconditionally.  Proved:
-    the statement under the computed flag; that the fuel `|W|² + 2` always suffices is not proved. -/
+    Full statement (DESIGN): `(finish m).R = closureOf k m.worlds m.R` unconditionally.  Proved here:
+    the statement under the computed flag.  The unconditional statement is `C08_access_closure` below
+    (`C08_access_fuel_suffices`: the fuel `|W|² + 2` always suffices). -/
 theorem C08_access_closure_partial (k : FrameKind) (hk : Frames.isRefl k = true) (R : Acc) (hwf : R.WF) :
     (∀ (Q : Nat × Nat → Prop), Frames.Holds k R.keys Q → (∀ p ∈ R.pairs, Q p) →
         ∀ p ∈ (Acc.enforce k R).1.pairs, Q p) ∧
@@ -182,6 +207,102 @@ theorem C08_access_closure_partial (k : FrameKind) (hk : Frames.isRefl k = true)
 
 example : (Acc.enforce .S5 ⟨[0, 1, 2], [(0, 1), (1, 2)]⟩).2 = true ∧
     (Acc.enforce .S5 ⟨[0, 1, 2], [(0, 1), (1, 2)]⟩).1.pairs.length = 9 := by decide +kernel
+
+/-- The fuel `|W|² + 2` the mirror gives the `while True` loops of `enforce()` ALWAYS suffices: the
+    relation only grows inside `W × W` and every iteration that does not leave through `break` adds a
+    pair that was not there.  So the computed flag of `C08_access_closure_partial` is `true` for every
+    relation whose pairs relate keys (what `Access.add` maintains: `Acc.WF`), for every Access class. -/
+theorem C08_access_fuel_suffices (k : FrameKind) (R : Acc) (hwf : R.WF) : (Acc.enforce k R).2 = true :=
+  Acc.enforce_flag k hwf
+
+example : (Model.init.R.add 0 1).WF ∧ (Acc.enforce .S5 (Model.init.R.add 0 1)).2 = true :=
+  ⟨Acc.WF_add (by intro p hp; cases hp) 0 1, C08_access_fuel_suffices .S5 _ (Acc.WF_add (by intro p hp; cases hp) 0 1)⟩
+
+/-- UNCONDITIONAL closure statement (no computed flag): for every Access class but the serial one
+    (`C08_access_serial`), `enforce()` turns R into exactly the closure the frame condition requires —
+      * it is the relation the specification program `Frames.closure` computes over the worlds of R,
+      * it has the frame property (reflexive on the worlds / transitive / symmetric, as the class demands),
+      * it contains R,
+      * it lies inside EVERY relation with the property that contains R (so it is the least one),
+      * it has exactly the worlds of R (no world invented). -/
+theorem C08_access_closure (k : FrameKind) (hk : k ≠ .D) (R : Acc) (hwf : R.WF) :
+    (∀ p, p ∈ (Acc.enforce k R).1.pairs ↔ p ∈ Frames.closure k R.keys R.pairs) ∧
+    Frames.Holds k R.keys (· ∈ (Acc.enforce k R).1.pairs) ∧
+    (∀ p ∈ R.pairs, p ∈ (Acc.enforce k R).1.pairs) ∧
+    (∀ (Q : Nat × Nat → Prop), Frames.Holds k R.keys Q → (∀ p ∈ R.pairs, Q p) →
+        ∀ p ∈ (Acc.enforce k R).1.pairs, Q p) ∧
+    (∀ w, w ∈ (Acc.enforce k R).1.keys ↔ w ∈ R.keys) :=
+  Acc.enforce_spec hk hwf
+
+example : (Acc.enforce .S4 ⟨[0, 1, 2], [(0, 1), (1, 2)]⟩).1.pairs = [(0, 1), (1, 2), (0, 0), (1, 1), (2, 2), (0, 2)] ∧
+    (Acc.WF ⟨[0, 1, 2], [(0, 1), (1, 2)]⟩) := by
+  refine ⟨by decide +kernel, ?_⟩
+  intro p hp
+  simp only [List.mem_cons, List.not_mem_nil, or_false] at hp
+  rcases hp with rfl | rfl <;> simp
+
+/-- the same about `finish()` of a model: after a successful first `finish` (any logic whose Access class
+    is not the serial one) the model's access relation is the closure, over the worlds the model has
+    (keys of R and worlds with a frame), of the pairs added before — for EVERY model whose pairs relate
+    keys (every model reachable through the API: `C08_reachable_inv`) -/
+theorem C08_access_closure_finish (L : LogicData) (hk : L.frame ≠ .D) (h : Hints) (m m' : Model)
+    (hfin : finish L h m = (m', none)) (hnf : m.finished = false) (hwf : m.R.WF) :
+    ∃ ws : List Nat,
+      (∀ w, w ∈ ws ↔ w ∈ m.R.keys ∨ (m.frameComplete = false ∧ w ∈ akeys m.frames)) ∧
+      (∀ w, w ∈ m'.R.keys ↔ w ∈ ws) ∧
+      (∀ p, p ∈ m'.R.pairs ↔ p ∈ Frames.closure L.frame ws m.R.pairs) ∧
+      Frames.Holds L.frame ws (· ∈ m'.R.pairs) ∧
+      (∀ (Q : Nat × Nat → Prop), Frames.Holds L.frame ws Q → (∀ p ∈ m.R.pairs, Q p) → ∀ p ∈ m'.R.pairs, Q p) := by
+  obtain ⟨R1, hwf1, hp1, hk1, hR, _⟩ := finish_R hfin hnf hwf
+  obtain ⟨c1, c2, _, c4, c5⟩ := Acc.enforce_spec hk hwf1
+  rw [hR]
+  exact ⟨R1.keys, hk1, c5, fun p => hp1 ▸ c1 p, c2, fun Q hQ hR' => c4 Q hQ (hp1 ▸ hR')⟩
+
+example :
+    let m := (run Test.tS4 {} Model.init [.setPred Test.F [Test.a] .T 2, .rAdd 0 1]).1
+    (finish Test.tS4 {} m).2 = none ∧ m.finished = false ∧ m.R.pairs = [(0, 1)] ∧ akeys m.frames = [0, 2] ∧
+      (finish Test.tS4 {} m).1.R.keys = [0, 1, 2] ∧
+      (finish Test.tS4 {} m).1.R.pairs = [(0, 1), (0, 0), (1, 1), (2, 2)] := by decide +kernel
+
+/-- serial Access class at the level of `finish()`: every world of the finished model has a successor,
+    and the only additions are the arrows into ONE new world from the dead ends, plus its loop -/
+theorem C08_access_serial_finish (L : LogicData) (hk : L.frame = .D) (h : Hints) (m m' : Model)
+    (hfin : finish L h m = (m', none)) (hnf : m.finished = false) (hwf : m.R.WF) :
+    (∀ w ∈ m'.R.keys, m'.R.succ w ≠ []) ∧ (∀ p ∈ m.R.pairs, p ∈ m'.R.pairs) ∧
+    ∃ n : Nat, (∀ w ∈ m.R.keys, w < n) ∧ (∀ w ∈ akeys m.frames, m.frameComplete = false → w < n) ∧
+      (∀ p ∈ m'.R.pairs, p ∈ m.R.pairs ∨ (p.2 = n ∧ (p.1 = n ∨ m.R.succ p.1 = []))) ∧
+      (∀ w ∈ m'.R.keys, w = n ∨ w ∈ m.R.keys ∨ w ∈ akeys m.frames) := by
+  obtain ⟨R1, hwf1, hp1, hk1, hR, _⟩ := finish_R hfin hnf hwf
+  rw [hk] at hR
+  obtain ⟨s1, s2, s3, s4⟩ := Acc.enforceSerial_spec R1
+  have hsucc : ∀ w, R1.succ w = m.R.succ w := by intro w; simp only [Acc.succ, hp1]
+  rw [hR]
+  simp only [Acc.enforce]
+  refine ⟨s1, fun p hp => s2 p (hp1 ▸ hp), R1.keys.foldl max 0 + 1, ?_, ?_, ?_, ?_⟩
+  · intro w hw
+    have := (Acc.foldl_max_ge R1.keys 0).2 w ((hk1 w).2 (Or.inl hw))
+    omega
+  · intro w hw hfc
+    have := (Acc.foldl_max_ge R1.keys 0).2 w ((hk1 w).2 (Or.inr ⟨hfc, hw⟩))
+    omega
+  · intro p hp
+    rcases s3 p hp with h1 | ⟨h1, h2⟩
+    · exact Or.inl (hp1 ▸ h1)
+    · refine Or.inr ⟨h1, ?_⟩
+      rcases h2 with h2 | ⟨_, h2⟩
+      · exact Or.inl h2
+      · exact Or.inr (hsucc _ ▸ h2)
+  · intro w hw
+    rcases s4 w hw with h1 | h1
+    · rcases (hk1 w).1 h1 with h2 | ⟨_, h2⟩
+      · exact Or.inr (Or.inl h2)
+      · exact Or.inr (Or.inr h2)
+    · exact Or.inl h1
+
+example :
+    let m := (run Test.tD {} Model.init [.setPred Test.F [Test.a] .T 2, .rAdd 0 1]).1
+    (finish Test.tD {} m).2 = none ∧ m.finished = false ∧
+      (finish Test.tD {} m).1.R = ⟨[0, 1, 2, 3], [(0, 1), (1, 3), (2, 3), (3, 3)]⟩ := by decide +kernel
 
 /-- nothing is lost (every frame kind) -/
 theorem C08_access_extends (k : FrameKind) (R : Acc) : ∀ p ∈ R.pairs, p ∈ (Acc.enforce k R).1.pairs :=
@@ -305,8 +426,9 @@ example : (finishX Test.tD {} (run Test.tD {} Model.init [.setPred Test.F [Test.
    `self.constants` (an input, `Hints`, of the mirror): harness finding
    `C08:identity-completion:order-dependent`.  Proved here: the access part — the finished
    relation is a function of the SET of worlds and pairs, whatever the order of the `R.add` calls.
-   The value-setting part is checked on the implementation by the permutation stream of the harness
-   (snapshot equality of finished models), not proved. -/
+   The value-setting part: see `C08_order_independent_assembly` (every logic), `C08_order_independent`
+   (every non-classical logic: complete) and `C08_order_independent_classical_partial` below; the access part
+   without the computed flags is `C08_order_independent_access`. -/
 theorem C08_order_independent_partial (k : FrameKind) (hk : Frames.isRefl k = true) (R₁ R₂ : Acc)
     (h₁ : R₁.WF) (h₂ : R₂.WF) (hkeys : ∀ w, w ∈ R₁.keys ↔ w ∈ R₂.keys) (hpairs : ∀ p, p ∈ R₁.pairs ↔ p ∈ R₂.pairs)
     (f₁ : (Acc.enforce k R₁).2 = true) (f₂ : (Acc.enforce k R₂).2 = true) (p : Nat × Nat) :
@@ -318,5 +440,177 @@ example :
     let R₂ := ((Model.init.R.add 1 2).add 0 1)
     R₁ ≠ R₂ ∧ (∀ p ∈ (Acc.enforce .S4 R₁).1.pairs, p ∈ (Acc.enforce .S4 R₂).1.pairs) ∧
       (Acc.enforce .S4 R₁).2 = true ∧ (Acc.enforce .S4 R₂).2 = true := by decide +kernel
+
+/-- the access half without the computed flags: for every Access class but the serial one the finished
+    relation (worlds and pairs) is a function of the SET of worlds and pairs -/
+theorem C08_order_independent_access (k : FrameKind) (hk : k ≠ .D) (R₁ R₂ : Acc) (h₁ : R₁.WF) (h₂ : R₂.WF)
+    (hkeys : ∀ w, w ∈ R₁.keys ↔ w ∈ R₂.keys) (hpairs : ∀ p, p ∈ R₁.pairs ↔ p ∈ R₂.pairs) :
+    (∀ w, w ∈ (Acc.enforce k R₁).1.keys ↔ w ∈ (Acc.enforce k R₂).1.keys) ∧
+    (∀ p, p ∈ (Acc.enforce k R₁).1.pairs ↔ p ∈ (Acc.enforce k R₂).1.pairs) :=
+  Acc.enforce_set_congr hk h₁ h₂ hkeys hpairs
+
+example :
+    let R₁ := ((Model.init.R.add 0 1).add 1 2)
+    let R₂ := ((Model.init.R.add 1 2).add 0 1)
+    R₁ ≠ R₂ ∧ (∀ p ∈ (Acc.enforce .S5 R₁).1.pairs, p ∈ (Acc.enforce .S5 R₂).1.pairs) ∧
+      (Acc.enforce .S5 R₁).1.pairs ≠ (Acc.enforce .S5 R₂).1.pairs := by decide +kernel
+
+/- The CONTENT of a model (`Model.has`, `Model.Eqv`; Ptx/Proofs/LibModelOrder.lean) is everything
+   `_complete_frames`, `enforce()`, `value_of` and `get_data` can see of it: which worlds have a frame
+   (`.frame w`), the value a letter / uninterpreted sentence / predication has in the frame of a world
+   (`.at w (.atom a v)`, `.at w (.opq s v)`, `.at w (.pred p t v)`: the dict lookups), which predicates
+   the frame of a world knows (`.at w (.hasPred p)`), the model's constants, the letters / predicates of
+   `self.sentences`, keys and pairs of `R` — each as a SET; `Model.Eqv` = same content and the same
+   `finished` / `_is_frame_complete` flags.  It is "equality of canonicalised state": two models with the
+   same content differ only in the insertion order of their dicts / sets. -/
+
+/-- every logic: two programs of `set_atomic_value` / `set_opaque_value` / `set_predicated_value` / `R.add`
+    calls that are permutations of one another and in which no call raises assemble models with the same
+    content (the content is described by MEMBERSHIP of calls in the program: `run_has`) -/
+theorem C08_order_independent_assembly (L : LogicData) (h : Hints) (ops₁ ops₂ : List MOp) (hperm : ops₁.Perm ops₂)
+    (hprim : ∀ op ∈ ops₁, op.prim = true)
+    (hok₁ : ∀ e ∈ (run L h Model.init ops₁).2, e = none) (hok₂ : ∀ e ∈ (run L h Model.init ops₂).2, e = none) :
+    (run L h Model.init ops₁).1.Eqv (run L h Model.init ops₂).1 :=
+  run_perm_eqv Model.init hperm hprim hok₁ hok₂
+
+example :
+    let ops₁ : List MOp := [.setPred Test.F [Test.a] .T 1, .setPred Test.G [Test.b] .T 2, .rAdd 0 1]
+    let ops₂ : List MOp := [.setPred Test.G [Test.b] .T 2, .setPred Test.F [Test.a] .T 1, .rAdd 0 1]
+    ops₁.Perm ops₂ ∧ (∀ op ∈ ops₁, op.prim = true) ∧ (run Test.tS4 {} Model.init ops₁).2 = [none, none, none] ∧
+      (run Test.tS4 {} Model.init ops₂).2 = [none, none, none] ∧
+      (run Test.tS4 {} Model.init ops₁).1 ≠ (run Test.tS4 {} Model.init ops₂).1 := by
+  refine ⟨?_, by decide, by decide +kernel, by decide +kernel, by decide +kernel⟩
+  exact List.Perm.swap _ _ _
+
+/-- ORDER INDEPENDENCE, every logic outside the classical family (all 50 such logics of the tree have an
+    Access class other than the serial one): two programs of value-setting / `R.add` calls that are
+    permutations of one another, none of whose calls raises, each followed by `finish()`:
+      * both `finish()` calls raise the same exception, or neither raises, and then
+      * the finished models have the same content (`Model.Eqv`: same frames, same stored values, same
+        constants, same access relation — as sets),
+      * every sentence of `C08_eval_is_spec` (closed, over the model's constants, interpreted vocabulary,
+        no re-binding) has the same value in both at every world of a set `S` of worlds closed under
+        access (the side condition of `C08_eval_is_spec` on the first model),
+      * every uninterpreted sentence has the same value in both at every world that has a frame (any
+        world, in a modal logic),
+      * in a modal logic `S` can be taken to be ALL worlds of the finished relation. -/
+theorem C08_order_independent (L : LogicData) (hOK : foldProgramsOKB L = true) (hT : L.tablesTotalB = true)
+    (hncl : isClassical L = false) (hD : L.frame ≠ .D) (h₁ h₂ : Hints) (ops₁ ops₂ : List MOp)
+    (hperm : ops₁.Perm ops₂) (hprim : ∀ op ∈ ops₁, op.prim = true)
+    (hok₁ : ∀ e ∈ (run L h₁ Model.init ops₁).2, e = none) (hok₂ : ∀ e ∈ (run L h₂ Model.init ops₂).2, e = none) :
+    (finish L h₁ (run L h₁ Model.init ops₁).1).2 = (finish L h₂ (run L h₂ Model.init ops₂).1).2 ∧
+    ∀ m₁ m₂ : Model, finish L h₁ (run L h₁ Model.init ops₁).1 = (m₁, none) →
+      finish L h₂ (run L h₂ Model.init ops₂).1 = (m₂, none) →
+      m₁.Eqv m₂ ∧
+      (∀ (_ : Dom m₁) (S : Nat → Prop), WorldsOK L m₁ S → ∀ s, okIn L m₁.consts [] s = true → ∀ w, S w →
+          valueOf L m₂ s w = valueOf L m₁ s w) ∧
+      (∀ s w, isOpaque L s = true → (L.modal = true ∨ (m₁.frames.lookup w).isSome = true) →
+          valueOf L m₂ s w = valueOf L m₁ s w) ∧
+      (L.modal = true → ∀ (_ : Dom m₁) s, okIn L m₁.consts [] s = true → ∀ w ∈ m₁.R.keys,
+          valueOf L m₂ s w = valueOf L m₁ s w) := by
+  obtain ⟨he, hq⟩ := order_independent hncl hD h₁ h₂ hperm hprim hok₁ hok₂
+  refine ⟨he, ?_⟩
+  intro m₁ m₂ hf₁ hf₂
+  have heq : m₁.Eqv m₂ := by
+    have := hq (by rw [hf₁])
+    rw [hf₁, hf₂] at this
+    exact this
+  have hnf : (run L h₁ Model.init ops₁).1.finished = false := by
+    rw [(run_has ops₁ Model.init hprim hok₁).2.1]; rfl
+  have hinv := C08_reachable_inv L hT h₁ ops₁
+  have hinv₁ : m₁.Inv L := by
+    have := finish_inv (tablesOK_of_total hT) h₁ hinv
+    rw [hf₁] at this; exact this
+  have hfin₁ : m₁.finished = true := (finish_R hf₁ hnf hinv.rwf).choose_spec.2.2.2.2
+  have key : ∀ (_ : Dom m₁) (S : Nat → Prop), WorldsOK L m₁ S → ∀ s, okIn L m₁.consts [] s = true → ∀ w, S w →
+      valueOf L m₂ s w = valueOf L m₁ s w := fun c0 S hS s hs w hw =>
+    valueOfF_congr L hOK hT m₁ m₂ heq hfin₁ hinv₁.valsOK c0 S hS s.size s (Nat.le_refl _) hs w hw
+  refine ⟨heq, key, fun s w hs hw => valueOf_opaque_congr heq hfin₁ hw hs, ?_⟩
+  intro hmod c0 s hs w hw
+  exact key c0 _ (worldsOK_of_finish hmod hT h₁ (finishX_flag hf₁ hnf hinv.rwf) hnf hinv) s hs w hw
+
+/-- non-vacuity: a non-classical modal logic (LP tables on S4 frames), two orders of the same calls, both
+    succeed, the finished models differ as data (insertion order) and agree on a quantified modal sentence -/
+example :
+    let L : LogicData := { Test.tLP with name := "tS4LP", modal := true, frame := .S4 }
+    let ops₁ : List MOp := [.setPred Test.F [Test.a] .B 1, .rAdd 0 1, .setPred Test.F [Test.b] .T 0]
+    let ops₂ : List MOp := [.setPred Test.F [Test.b] .T 0, .rAdd 0 1, .setPred Test.F [Test.a] .B 1]
+    let m₁ := (finish L {} (run L {} Model.init ops₁).1).1
+    let m₂ := (finish L {} (run L {} Model.init ops₂).1).1
+    let s : Sent := .op1 .nec (.quant .ex 0 0 (.pred Test.F [Test.x]))
+    isClassical L = false ∧ L.frame ≠ .D ∧ (run L {} Model.init ops₁).2 = [none, none, none] ∧
+      (run L {} Model.init ops₂).2 = [none, none, none] ∧ (finish L {} (run L {} Model.init ops₁).1).2 = none ∧
+      m₁ ≠ m₂ ∧ okIn L m₁.consts [] s = true ∧ valueOf L m₁ s 0 = valueOf L m₂ s 0 ∧ valueOf L m₁ s 0 = .ok .B := by
+  decide +kernel
+
+/- Classical family (CPL CFOL K D T S4 S5): the full statement is FALSE of the mirrored code — the one-pass
+   identity completion of cpl.Model.finish walks `self.constants` (a `set`; its iteration order is an input of
+   the mirror, `Hints`) and what it adds depends on that order; see the witness below and the harness finding
+   `C08:identity-completion:order-dependent`.  Proved: everything in `finish()` EXCEPT the identity pass is
+   order independent — the assembled models have the same content, `_complete_frames` maps them to models with
+   the same content (or raises in both), and the finished models have the same constants and (Access class
+   not serial) the same access relation.  Not proved: that the identity pass itself is order independent when
+   no Identity value is set to T (then `_get_identicals` is empty and the pass only adds `c = c` and `E!c`);
+   the content lemmas for `_agument_extension_with_identicals` / `_ensure_self_*` are missing. -/
+theorem C08_order_independent_classical_partial (L : LogicData) (hcl : isClassical L = true) (hD : L.frame ≠ .D)
+    (h₁ h₂ : Hints) (ops₁ ops₂ : List MOp) (hperm : ops₁.Perm ops₂) (hprim : ∀ op ∈ ops₁, op.prim = true)
+    (hok₁ : ∀ e ∈ (run L h₁ Model.init ops₁).2, e = none) (hok₂ : ∀ e ∈ (run L h₂ Model.init ops₂).2, e = none) :
+    (run L h₁ Model.init ops₁).1.Eqv (run L h₂ Model.init ops₂).1 ∧
+    (∀ c₁, completeFrames L (run L h₁ Model.init ops₁).1 = .ok c₁ →
+        ∃ c₂, completeFrames L (run L h₂ Model.init ops₂).1 = .ok c₂ ∧ c₁.Eqv c₂) ∧
+    ∀ m₁ m₂ : Model, finish L h₁ (run L h₁ Model.init ops₁).1 = (m₁, none) →
+      finish L h₂ (run L h₂ Model.init ops₂).1 = (m₂, none) →
+      (∀ c, c ∈ m₁.consts ↔ c ∈ m₂.consts) ∧ (∀ w, w ∈ m₁.R.keys ↔ w ∈ m₂.R.keys) ∧
+      (∀ p, p ∈ m₁.R.pairs ↔ p ∈ m₂.R.pairs) := by
+  have hprim₂ : ∀ op ∈ ops₂, op.prim = true := fun op ho => hprim op (hperm.mem_iff.2 ho)
+  have hok₂' : ∀ e ∈ (run L h₁ Model.init ops₂).2, e = none := by rw [run_hints h₁ h₂ ops₂ _ hprim₂]; exact hok₂
+  have heq := run_perm_eqv (hints := h₁) Model.init hperm hprim hok₁ hok₂'
+  rw [run_hints h₁ h₂ ops₂ _ hprim₂] at heq
+  have hFK₁ := run_FK (L := L) h₁ ops₁ _ init_FK
+  have hFK₂ := run_FK (L := L) h₂ ops₂ _ init_FK
+  refine ⟨heq, fun c₁ hc₁ => completeFrames_eqv heq hFK₁ hFK₂ hc₁, ?_⟩
+  intro m₁ m₂ hf₁ hf₂
+  have hnf₁ : (run L h₁ Model.init ops₁).1.finished = false := by
+    rw [(run_has ops₁ Model.init hprim hok₁).2.1]; rfl
+  have hnf₂ : (run L h₂ Model.init ops₂).1.finished = false := by
+    rw [(run_has ops₂ Model.init hprim₂ hok₂).2.1]; rfl
+  obtain ⟨_, hc₁, _⟩ := finish_self hcl h₁ hf₁ hnf₁
+  obtain ⟨_, hc₂, _⟩ := finish_self hcl h₂ hf₂ hnf₂
+  obtain ⟨R1, w1, p1, k1, e1, _⟩ := finish_R hf₁ hnf₁ (run_prim_WF hprim hok₁)
+  obtain ⟨R2, w2, p2, k2, e2, _⟩ := finish_R hf₂ hnf₂ (run_prim_WF hprim₂ hok₂)
+  have hkeys : ∀ w, w ∈ R1.keys ↔ w ∈ R2.keys := by
+    intro w
+    rw [k1, k2, heq.frameComplete]
+    exact or_congr (heq.has (.key w)) (and_congr Iff.rfl (heq.has (.frame w)))
+  have hpairs : ∀ p, p ∈ R1.pairs ↔ p ∈ R2.pairs := by
+    intro p; rw [p1, p2]; exact heq.has (.pair p)
+  obtain ⟨ek, ep⟩ := Acc.enforce_set_congr hD w1 w2 hkeys hpairs
+  rw [e1, e2, hc₁, hc₂]
+  exact ⟨fun c => heq.has (.const c), ek, ep⟩
+
+example :
+    let ops₁ : List MOp := [.setPred Test.F [Test.a] .T 1, .rAdd 0 1, .setPred Pred.identity [Test.a, Test.b] .T 0]
+    let ops₂ : List MOp := [.setPred Pred.identity [Test.a, Test.b] .T 0, .rAdd 0 1, .setPred Test.F [Test.a] .T 1]
+    isClassical Test.tS4 = true ∧ (run Test.tS4 {} Model.init ops₁).2 = [none, none, none] ∧
+      (run Test.tS4 {} Model.init ops₂).2 = [none, none, none] ∧
+      (finish Test.tS4 {} (run Test.tS4 {} Model.init ops₁).1).2 = none ∧
+      (finish Test.tS4 {} (run Test.tS4 {} Model.init ops₂).1).2 = none := by decide +kernel
+
+/-- witness that the full statement fails in the classical family (mirror of finding
+    `C08:identity-completion:order-dependent`): the same two calls in the two orders, `self.constants` visited
+    in the order each run introduced the constants (`Hints` empty): after `a = b; c = b; finish`, `b = a` is T
+    and `b = c` is F; after `c = b; a = b; finish`, `b = a` is F and `b = c` is T -/
+theorem C08_order_dependent_classical_witness :
+    let ops₁ : List MOp := [.setPred Pred.identity [Test.a, Test.b] .T 0, .setPred Pred.identity [Test.c, Test.b] .T 0, .finish]
+    let ops₂ : List MOp := [.setPred Pred.identity [Test.c, Test.b] .T 0, .setPred Pred.identity [Test.a, Test.b] .T 0, .finish]
+    let m₁ := (run Test.tCFOL {} Model.init ops₁).1
+    let m₂ := (run Test.tCFOL {} Model.init ops₂).1
+    (run Test.tCFOL {} Model.init ops₁).2 = [none, none, none] ∧ (run Test.tCFOL {} Model.init ops₂).2 = [none, none, none] ∧
+      valueOf Test.tCFOL m₁ (.pred Pred.identity [Test.b, Test.a]) 0 = .ok .T ∧
+      valueOf Test.tCFOL m₂ (.pred Pred.identity [Test.b, Test.a]) 0 = .ok .F ∧
+      valueOf Test.tCFOL m₁ (.pred Pred.identity [Test.b, Test.c]) 0 = .ok .F ∧
+      valueOf Test.tCFOL m₂ (.pred Pred.identity [Test.b, Test.c]) 0 = .ok .T := by decide +kernel
+
+example : isClassical Test.tCFOL = true := by decide +kernel
 
 end Ptx.Props.C08
